@@ -94,7 +94,7 @@ def generate(batch: str, r: Rng, idx: int, tier: str) -> Dict[str, Any]:
                 "tasks": tasks, "budgets": budgets, "late": late}
     feat = machine.gen_features(r.child("feat"), {"timers": True, "imr_writes": True, "isr_writes": True,
                                                   "wait": True, "halt": True, "ir": True, "calls": True,
-                                                  "far_calls": True, "nested": True, "off": False,
+                                                  "far_calls": True, "nested": True, "off": True,
                                                   "keys": False, "onk": False})
     feat["timers"] = True
     scn = machine.gen_machine_scenario(r, "rs-machine", feat, boundaries=r.choice([20, 60, 150, 300]), faulty=False)
@@ -135,8 +135,15 @@ def execute(scn: Dict[str, Any]) -> Dict[str, Any]:
         # split async run: k then n-k through two runners
         ["a.run", 2, k, scn["slice"], watch], ["a.run", 2, n - k, max(1, scn["slice"] // 2), watch],
     ]
+    # the same split with the ON key pressed by the host between the two parts (the wake-up source of a machine that
+    # powered itself off), synchronously and through the scheduler
+    ops += machine.rs_setup_ops(scn, 3) + machine.rs_setup_ops(scn, 4)
+    ops += [["m.stepn", 3, k], ["m.onk", 3, 1], ["m.stepn", 3, n - k], ["m.obs", 3, watch],
+            ["a.run", 4, k, scn["slice"], watch], ["m.onk", 4, 1], ["a.run", 4, n - k, scn["slice"], watch]]
     out = host().call(ops)
-    return {"sync": out[0], "sync_obs": out[1], "async": out[2], "split_a": out[3], "split_b": out[4]}
+    tail = out[-5:]          # ops without a result (setup, m.onk) do not appear in the reply
+    return {"sync": out[0], "sync_obs": out[1], "async": out[2], "split_a": out[3], "split_b": out[4],
+            "onk_sync_ok": [tail[0], tail[1]], "onk_sync_obs": tail[2], "onk_async_a": tail[3], "onk_async_b": tail[4]}
 
 
 def _model(scn: Dict[str, Any], result_clocks: List[int]):
@@ -183,6 +190,14 @@ def check(scn: Dict[str, Any], hist: Dict[str, Any]) -> List[Dict[str, Any]]:
                 if s[i] != other[i]:
                     V("async_vs_sync", f"{label}: {nm} sync={s[i]} async={other[i]} after {scn['boundaries']} "
                       f"instructions, slice {scn['slice']}", field=nm, mode=label)
+                    break
+        so, ab = hist.get("onk_sync_obs"), hist.get("onk_async_b")
+        if so and ab and not ab.get("err") and not (hist.get("onk_async_a") or {}).get("err") and \
+                all(isinstance(x, dict) and x.get("ok") for x in hist.get("onk_sync_ok", [])):
+            for i, nm in enumerate(names):
+                if so[i] != ab["obs"][i]:
+                    V("async_vs_sync", f"ON key pressed after {scn['split']} instructions: {nm} sync={so[i]} async={ab['obs'][i]} "
+                      f"after {scn['boundaries']} instructions, slice {scn['slice']}", field=nm, mode="onk_wake")
                     break
         return viols
 
